@@ -137,17 +137,18 @@ def run(ck):
     except c50gen.TranslationError as e:
         raise vlib.BuildError("C50 translator: " + e.what, "the update/revert functions or the state headers left "
                               "the translated subset: the model of the state can no longer be regenerated")
-    # Every rewrite of the generated module carries a fresh generation number: lake decides by content hash,
-    # vlib's stale-olean test by modification time; a content that comes back to an earlier state (a change of
-    # the tree that is reverted) must therefore still trigger a rebuild of the dependent modules.
-    body = c50gen.lean_module(d)
-    gpath = os.path.join(vlib.LEAN, "TfelVerif", "C50", "GenState.lean")
-    old = open(gpath).read() if os.path.exists(gpath) else ""
-    mg = re.search(r"^-- generation (\d+)\n", old, re.M)
-    gen = int(mg.group(1)) if mg else 0
-    if re.sub(r"^-- generation \d+\n", "", old, flags=re.M) != body:
-        gen += 1
-    ck.write_gen("TfelVerif/C50/GenState.lean", body + "-- generation %d\n" % gen)
+    gpath = ck.write_gen("TfelVerif/C50/GenState.lean", c50gen.lean_module(d))
+    # lake decides what is up to date by content hash, vlib's stale-olean test by modification time: when the
+    # generated module comes back to an earlier content (a change of the tree that is reverted) lake rightly
+    # reuses the oleans of the dependent modules, which are then older than GenState.lean. Drop them so that
+    # they are rebuilt (and re-checked) against the module as it is now.
+    odir = os.path.join(vlib.LEAN, ".lake", "build", "lib", "lean", "TfelVerif", "C50")
+    for mod in ("Lemmas", "Props"):
+        olean = os.path.join(odir, mod + ".olean")
+        if os.path.exists(olean) and os.path.getmtime(olean) < os.path.getmtime(gpath):
+            for fn in os.listdir(odir):
+                if fn.startswith(mod + "."):
+                    os.remove(os.path.join(odir, fn))
     ck.write("gen50.hxx", c50gen.cxx_header(d))
     kinds = {}
     for (struct, n), k in c50gen.field_kinds(d).items():
